@@ -366,24 +366,34 @@ impl Case {
     }
 }
 
-fn masks(k: usize, rng: &mut Rng) -> Vec<u64> {
-    if k <= 6 {
+/// all 2^k subsets up to `full` leaves, beyond that `cap` sampled ones (none, all, singletons,
+/// co-singletons, random)
+fn masks(k: usize, rng: &mut Rng, full: usize, cap: usize) -> Vec<u64> {
+    if k <= full {
         return (0..1u64 << k).collect();
     }
     let all = if k >= 64 { !0u64 } else { (1u64 << k) - 1 };
-    let mut ms = vec![0, all];
+    let mut ms: Vec<u64> = vec![];
+    let push = |ms: &mut Vec<u64>, m: u64| {
+        if !ms.contains(&m) {
+            ms.push(m);
+        }
+    };
+    push(&mut ms, 0);
+    push(&mut ms, all);
     for i in 0..k.min(64) {
-        ms.push(1 << i);
-        ms.push(all & !(1 << i));
+        push(&mut ms, 1 << i);
     }
-    while ms.len() < 64 {
-        ms.push(rng.next() & all);
+    for i in 0..k.min(64) {
+        if ms.len() >= cap {
+            break;
+        }
+        push(&mut ms, all & !(1 << i));
     }
-    ms.sort();
-    ms.dedup();
-    ms.truncate(64);
-    if !ms.contains(&all) {
-        ms.push(all);
+    let mut tries = 0;
+    while ms.len() < cap && tries < 4 * cap {
+        push(&mut ms, rng.next() & all);
+        tries += 1;
     }
     ms
 }
@@ -497,7 +507,8 @@ fn run_case(c: &Case, rng: &mut Rng) -> String {
         }
     }
     let ctx = Value::from(ctx);
-    let ms = masks(k, rng);
+    // a template variant costs ten renderings (consumers, block table): fewer subsets there
+    let ms = if c.tmpl { masks(k, rng, 4, 20) } else { masks(k, rng, 6, 64) };
     let all = if k == 0 { 0 } else if k >= 64 { !0u64 } else { (1u64 << k) - 1 };
     let mut load = "ok".to_string();
     let mut lit = String::new();
@@ -1250,17 +1261,20 @@ fn gen_effect_stmt(rng: &mut Rng) -> (String, Vec<(usize, usize)>) {
     for _ in 0..1 + rng.below(3) {
         emit_wrapped(rng, &mut o, &mut sp, &mut names, 2);
     }
-    // consumers inside the template itself
-    if rng.chance(1, 2) {
+    // consumers inside the template itself (mostly of things the template defines somewhere)
+    let used: Vec<&str> = BLOCK_NAMES.iter().copied().filter(|n| !names.contains(n)).collect();
+    if !used.is_empty() && rng.chance(2, 3) {
+        o.push_str(&format!("|{{{{ self.{}() }}}}", rng.pick(&used)));
+    } else if rng.chance(1, 8) {
         o.push_str(&format!("|{{{{ self.{}() }}}}", rng.pick(&BLOCK_NAMES)));
     }
-    if rng.chance(1, 3) {
+    if (o.contains("macro m(") && rng.chance(2, 3)) || rng.chance(1, 10) {
         o.push_str("|{{ m() }}");
     }
-    if rng.chance(1, 3) {
+    if (o.contains("set g =") && rng.chance(2, 3)) || rng.chance(1, 10) {
         o.push_str("|{{ g }}");
     }
-    if rng.chance(1, 6) {
+    if (o.contains(" as q ") && rng.chance(2, 3)) || rng.chance(1, 15) {
         o.push_str("|{{ q.f(1) }}");
     }
     (o, sp)
